@@ -610,7 +610,7 @@ def run(ctx):
     for fn in ("Fault.tla",):
         shutil.copy(os.path.join(tlc.SPEC_DIR, fn), work)
     import subprocess
-    p = subprocess.run(["java", "-Xss32m", "-cp", tlc.JAR_CP, "tlc2.TLC", "-workers", "4", "-metadir", os.path.join(work, "meta"), "-noGenerateSpecTE",
+    p = subprocess.run(["java", "-Xss32m", f"-Djava.io.tmpdir={work}", "-cp", tlc.JAR_CP, "tlc2.TLC", "-workers", "4", "-metadir", os.path.join(work, "meta"), "-noGenerateSpecTE",
                         "-deadlock", "-config", cfg, "-dump", os.path.join(work, "cat.dump"), mc], cwd=work, capture_output=True, text=True, timeout=600)
     if "No error has been found" not in p.stdout:
         raise core.MachineryError("catalogue enumeration failed: " + p.stdout[-1500:])
